@@ -105,6 +105,7 @@ type gen struct {
 	privCells []privCell
 	globalsSeen map[int]bool
 	boxed map[int]*Val
+	loopEntryVals map[string]*Val
 	unsupported int
 }
 
@@ -211,8 +212,15 @@ func (g *gen) oblige(st *State, kind, label string, goal *Term, detail string) *
 
 // ---------------------------------------------------------------- addresses
 
+func addrTypeKey(a *AddrInfo) string {
+	if a.Key != "" {
+		return a.Key
+	}
+	return typeKey(a.Root)
+}
+
 func (g *gen) leafKeyFor(a *AddrInfo, leafPath string) LeafKey {
-	return LeafKey{Type: typeKey(a.Root), Path: joinPath(a.Path, leafPath), Elem: a.Elem}
+	return LeafKey{Type: addrTypeKey(a), Path: joinPath(a.Path, leafPath), Elem: a.Elem}
 }
 
 func factsOf(l Leaf) (LeafFacts, bool) {
@@ -232,7 +240,7 @@ func factsOf(l Leaf) (LeafFacts, bool) {
 }
 
 func (g *gen) leafKeyL(a *AddrInfo, l Leaf) LeafKey {
-	k := LeafKey{Type: typeKey(a.Root), Path: joinPath(a.Path, l.Path), Elem: a.Elem}
+	k := LeafKey{Type: addrTypeKey(a), Path: joinPath(a.Path, l.Path), Elem: a.Elem}
 	if _, ok := leafFactsReg[k]; !ok {
 		if f, ok := factsOf(l); ok {
 			leafFactsReg[k] = f
@@ -1015,6 +1023,13 @@ func (g *gen) cutLoop(li *loopInfo, spec *LoopSpec) {
 		g.varAt = entryEdges[0].vars
 	}
 	entryVars := g.varAt
+	g.loopEntryVals = map[string]*Val{}
+	for i, p := range phis {
+		if p.Comment != "" {
+			g.loopEntryVals[p.Comment] = init[i]
+		}
+	}
+	levSave := g.loopEntryVals
 	if spec != nil {
 		env := g.specEnv(st0, g.entry)
 		g.bindLoopVars(env, li, phis)
@@ -1087,6 +1102,7 @@ func (g *gen) cutLoop(li *loopInfo, spec *LoopSpec) {
 	// ---- assume invariants
 	var env *SpecEnv
 	g.varAt = entryVars
+	g.loopEntryVals = levSave
 	if spec != nil {
 		env = g.specEnv(st, g.entry)
 		g.bindLoopVars(env, li, phis)
@@ -1117,6 +1133,7 @@ func (g *gen) cutLoop(li *loopInfo, spec *LoopSpec) {
 		if e.vars != nil {
 			g.varAt = e.vars
 		}
+		g.loopEntryVals = levSave
 		if spec != nil {
 			env2 := g.specEnv(e.st, g.entry)
 			g.bindLoopVars(env2, li, phis)
